@@ -27,6 +27,7 @@ func checkC11(p *Prog, c *Check) {
 	c11Restart(p, c)
 	c11Started(p, c)
 	c11Nonce(p, c, "C11-R6")
+	uniqueAddrsRule(p, c, "C11-R7")
 }
 
 func c11Config(p *Prog, c *Check) {
@@ -604,6 +605,8 @@ func checkC12(p *Prog, c *Check) {
 	c12Updates(p, c)
 	c12Flags(p, c)
 	c12Powermap(p, c)
+	uniqueAddrsRule(p, c, "C12-R6")
+	c12Quorum(p, c)
 }
 
 func c12EndBlock(p *Prog, c *Check) {
@@ -1264,4 +1267,176 @@ func (p *Prog) termLifted(fn *ssa.Function, t *Term, depth int, pred func(f *ssa
 		}
 	}
 	return n > 0
+}
+
+// uniqueAddrsRule: thresholds, vote counts and voting power are all counted per ENTRY of a keyper
+// list, so they mean "per keyper" only if the list of an accepted configuration has no duplicates.
+//   (1) medley.EnsureUniqueAddresses returns nil only after a loop over the whole slice in which every
+//       element was looked up in a local set, found absent, and inserted (seen-set algorithm);
+//   (2) a configuration decoded from a transaction (BatchConfigFromMessage) is returned without error
+//       only if EnsureUniqueAddresses(the decoded keyper list) == nil.
+func uniqueAddrsRule(p *Prog, c *Check, rule string) {
+	fn, err := p.Func("medley.EnsureUniqueAddresses")
+	if !c.Must(err) {
+		return
+	}
+	c.Analysed(shortFn(fn))
+	fi := p.Info(fn)
+	param := fi.T(fn.Params[0])
+	ok := false
+	why := "no loop over all addresses that checks each against a set of the earlier ones"
+	for _, l := range loopsOf(p, fn) {
+		if l.Idx == nil || l.Lo != 0 || !ParsePat("len($a)").Match(l.Bound, Binds{"a": param}) {
+			continue
+		}
+		// the set: a local map, updated only with the current element, on every continuing iteration
+		var set *ssa.MakeMap
+		var upd *ssa.MapUpdate
+		nUpd := 0
+		for b := range l.Blocks {
+			for _, in := range b.Instrs {
+				if mu, isMU := in.(*ssa.MapUpdate); isMU {
+					nUpd++
+					upd = mu
+					set, _ = mu.Map.(*ssa.MakeMap)
+				}
+			}
+		}
+		if nUpd != 1 || set == nil {
+			why = "the loop does not maintain one local set of the addresses seen so far"
+			continue
+		}
+		eb := Binds{"a": param, "i": l.Idx}
+		if !ParsePat("$a[$i]").Match(fi.T(upd.Key), eb) {
+			why = "the set is not extended with the current address"
+			continue
+		}
+		absent := fi.everyIteration(l, func(a Atom) bool {
+			b2 := Binds{"a": param, "i": l.Idx}
+			return ParseAtomPat("ok($s[$a[$i]]) == false").Match(a, b2) && b2["s"].s == fi.T(set).s
+		})
+		if !absent {
+			why = "an iteration can continue although the current address is already in the set (or without looking it up)"
+			continue
+		}
+		// every way back to the header passes the insertion
+		avoid := map[*ssa.BasicBlock]bool{upd.Block(): true}
+		for _, b := range fn.Blocks {
+			if !l.Blocks[b] {
+				avoid[b] = true
+			}
+		}
+		if reachAvoiding(l.Body, l.Header, nil, avoid) {
+			why = "an iteration can continue without inserting the current address into the set"
+			continue
+		}
+		okRet := true
+		for _, r := range returnsOf(fn) {
+			if fi.errIsNil(r.Results[0], r, 0) == no {
+				continue
+			}
+			if !fi.onlyByExhaustion(l, r.Block()) {
+				okRet = false
+			}
+		}
+		if !okRet {
+			why = "nil is returned before every address was checked"
+			continue
+		}
+		ok = true
+	}
+	c.Result(ok, rule, "EnsureUniqueAddresses:seen-set", p.Rel(fn.Pos()), shortFn(fn), "duplicate detection", why, "FORALL i: addrs[i] ∉ {addrs[0..i-1]} before nil is returned")
+	bf, err := p.Func("keyper/shutterevents.BatchConfigFromMessage")
+	if !c.Must(err) {
+		return
+	}
+	c.Analysed(shortFn(bf))
+	bfi := p.Info(bf)
+	n := 0
+	for _, r := range returnsOf(bf) {
+		if bfi.errIsNil(r.Results[1], r, 0) == no {
+			continue
+		}
+		n++
+		flds := bfi.structLitFields(r.Results[0])
+		b := Binds{}
+		okG := false
+		if flds != nil && flds["Keypers"] != nil {
+			b["k"] = flds["Keypers"]
+			_, okG = findAtom(bfi.FactsWithImports(r), "EnsureUniqueAddresses($k) == nil", b)
+		}
+		c.Result(okG, rule, "BatchConfigFromMessage:unique@"+retKey(bfi, r), p.siteOf(r), shortFn(bf), "configuration decoded from a transaction", "a configuration can be decoded successfully without its keyper list having passed the duplicate check", "EnsureUniqueAddresses(Keypers) == nil")
+	}
+	c.Floor(rule, n, 1)
+}
+
+// c12Quorum: the transition quorum. With every keyper contributing the same power, "checked-in
+// keypers hold more than two thirds" is 3·count > 2·n. Every non-trivial return of
+// numRequiredTransitionValidators is at least an expression D(n) of n = len(config.Keypers) for which
+// 3·D(n) > 2·n and D(n) ≤ n hold for EVERY n ≥ 1 — decided exactly by residue classes (arith.go).
+func c12Quorum(p *Prog, c *Check) {
+	rule := "C12-R7"
+	fn, err := p.Func("app.numRequiredTransitionValidators")
+	if !c.Must(err) {
+		return
+	}
+	c.Analysed(shortFn(fn))
+	fi := p.Info(fn)
+	nT := mk(TLen, "", nil, nil, mk(TField, "Keypers", nil, nil, fi.T(fn.Params[0])))
+	nT.s = nT.render()
+	n := nT.s
+	three := func(t *Term) *Term {
+		k := mk(TConst, "", nil, nil)
+		k.s = "3"
+		x := mk(TBin, "*", nil, nil, k, t)
+		return x
+	}
+	_ = three
+	cnt := 0
+	for _, r := range returnsOf(fn) {
+		facts := fi.FactsAt(r)
+		if _, zero := findAtom(facts, "len($c.Keypers) == 0", Binds{"c": fi.T(fn.Params[0])}); zero {
+			continue // the degenerate empty configuration
+		}
+		cnt++
+		key := "numRequiredTransitionValidators:ret@" + retKey(fi, r)
+		v := fi.T(r.Results[0])
+		// candidates for D: the value itself, or any lower bound of it among the facts
+		var cands []*Term
+		if arithDivisors(v, n) > 0 {
+			cands = append(cands, v)
+		}
+		for _, a := range facts {
+			if (a.Op == "<=" || a.Op == "<") && stripConv(a.R).s == stripConv(v).s && arithDivisors(a.L, n) > 0 {
+				cands = append(cands, a.L)
+			}
+		}
+		ok := false
+		why := "the returned count is not bounded below by an expression of the number of keypers"
+		for _, d := range cands {
+			// 2n < 3d  <=>  2n + 0 < d + d + d
+			two := mkBin("+", nT, nT)
+			thr := mkBin("+", mkBin("+", d, d), d)
+			ok1, w1 := arithForAll(two, thr, n, "<", 1)
+			ok2, w2 := arithForAll(d, nT, n, "<=", 1)
+			switch {
+			case !ok1:
+				why = "checked-in keypers meeting the quorum need not hold more than 2/3 of the power: 3·(" + siteTag.ReplaceAllString(d.s, "") + ") > 2·n " + w1
+			case !ok2:
+				why = "the quorum can exceed the number of keypers: " + w2
+			default:
+				ok = true
+			}
+			if ok {
+				break
+			}
+		}
+		c.Result(ok, rule, key, p.siteOf(r), shortFn(fn), "required number of checked-in keypers", why, "3·D(n) > 2·n and D(n) ≤ n for all n ≥ 1 (exact, by residues)")
+	}
+	c.Floor(rule, cnt, 2)
+}
+
+func mkBin(op string, l, r *Term) *Term {
+	t := mk(TBin, op, nil, nil, l, r)
+	return t
 }
